@@ -9,9 +9,9 @@ MANIFEST = dict(
          'renamings; aliases are invisible in validator trees). Proved for ALL environments, types, nestings and documents: '
          '(forward_compat_msg) every document B\'s decoder accepts - in particular everything B\'s encoder writes - is accepted by '
          'A\'s lenient decoder as the A-view of the decoded value (unknown fields dropped, unknown tags read as the catch-all, '
-         'unknown subtypes read as the base struct, payloads of tags that are Void in A ignored); (strict_accepts_known_partial) '
-         'A\'s strict decoder accepts it too when it contains nothing A does not know, i.e. strict mode refuses only messages '
-         'with unknown content; (backward_compat_msg) every document in A\'s encoder form that A\'s decoder accepts and that uses '
+         'unknown subtypes read as the base struct, payloads of tags that are Void in A ignored); (strict_rejects_iff) for '
+         'documents without repeated keys A\'s strict decoder fails, and then by the validation error only, exactly when the '
+         'document contains something A does not know (knownDoc); (backward_compat_msg) every document in A\'s encoder form that A\'s decoder accepts and that uses '
          'no Void-to-required tag is accepted by B\'s decoder in both modes as the same value with the new fields unset '
          '(reads give None / the declared default). Wire-form corollaries (*_partial) take the sender\'s own round trip (C04/C05) '
          'as a hypothesis. Tied to the code by pairs (A, B = A + 1-4 random compatible edits, also at sites reached only through '
@@ -21,9 +21,10 @@ MANIFEST = dict(
          'tightDoc / nvrDoc, and judged by an independent Python reading of the property (A-view, lift, unknown content of '
          'the message, read-back of every field including defaults).',
     note='Trusted: Lean kernel; correspondence generators (pair generator + value generators); the independent oracle of the '
-         'harness. Not proved (observed by testing on every case): the converse half of strict_rejects_iff (a message with '
-         'unknown content IS refused by strict decoding), the step from a value to its wire form in the corollaries (round '
-         'trip of the sender, C04; encoder form of the sender\'s output), sub_trans. Alias edits are generated only at sites '
+         'harness. Not proved (observed by testing on every case): the step from a value to its wire form (round trip of the '
+         'sender, C04; encoder form of the sender\'s output; value-level mentionsUnknown / noVoidToRequired = message-level '
+         'knownDoc / nvrDoc of the encoding), sub_trans (sub_refl is proved; multi-edit pairs are checked by evaluating '
+         'compatEnv on the whole pair, never by composing single steps). strict_rejects_iff uses C06\'s decode_no_crash. Alias edits are generated only at sites '
          'where the generated bb.Attribute(nullable=, user_defined=) flags do not change (union tag types, route types, '
          'below List / Map, non-nullable non-user field types). Values containing the documented ambiguity D7 (nullable '
          'all-optional struct member with nothing set, C04 finding) and Void-to-required tags (not promised by the guide) are '
